@@ -227,7 +227,10 @@ manifest = {
         }
     ],
     "checks": checks,
-    "notes": "See DESIGN.md. Exit codes of ./check: 0 held, 1 violation, 2 undecided, 3 checker error.",
+    "notes": "See DESIGN.md (section 11 is the as-built description). Exit codes of ./check: 0 held, 1 violation, 2 undecided (a contract that was discharged on the reference tree no longer is, without a counterexample), 3 checker error. "
+    "Quick tier: 1 s - 1 min per property on 16 cores. Thorough tier: the same contracts plus the string-token contracts (open proof attempts, reported but not counted) and deeper bounded universes; "
+    "about 10-20 min for C05, C15, C16, C20, a few minutes for the others. lemmas/Rules.lean is re-checked by core Lean 4 in every run that uses a loop rule. "
+    "baseline_obligations.json is the ledger of contracts discharged on the reference tree; known_findings.json lists the open findings (with carve-outs) and the fixed ones.",
     "not_applicable": [
         {"property_id": pid, "reason": NOT_YET.get(pid, "check under construction in this session: contracts for this property are not registered yet (see DESIGN.md section 5 for the plan)")}
         for pid in sorted(TITLES)
